@@ -56,7 +56,7 @@ class World:
         from aiocoap.options import Options
         from aiocoap.numbers.codes import Code
         self.Message, self.Code, self.Options, self.error = aiocoap.Message, Code, Options, error
-        logging.getLogger("coap").setLevel(logging.CRITICAL + 10)
+        __import__("common").quiet(logging.getLogger("coap"))
         self.loop = asyncio.new_event_loop()
 
         class Remote(interfaces.EndpointAddress):
